@@ -15,6 +15,14 @@ from twisted.python import log, failure
 from zope.interface import implementer
 
 
+# Twisted's start-up observer prints every log.err to stderr; the harness reads errors through LogTrap
+try:
+    from twisted.logger import globalLogBeginner
+    globalLogBeginner.beginLoggingTo([lambda e: None], redirectStandardIO=False, discardBuffer=True)
+except Exception:
+    pass
+
+
 class HarnessError(Exception):
     """The harness itself is wrong (nondeterminism leak, bad replay...).  Never a verdict."""
 
@@ -145,10 +153,21 @@ class Wire(object):
 class LogTrap(object):
     def __init__(self):
         self.errors = []      # [(why, exception type name, str(value))]
+        self.unhandled = []
         self.msgs = []
 
     def __call__(self, ev):
         if ev.get('isError'):
+            # "Unhandled error in Deferred" is emitted from Deferred.__del__, i.e. whenever the garbage
+            # collector gets to it - possibly during a later execution.  Kept apart, never used for verdicts.
+            if ev.get('log_format') == 'Unhandled error in Deferred:':
+                self._next_unhandled = True
+                return
+            if getattr(self, '_next_unhandled', False):
+                self._next_unhandled = False
+                f = ev.get('failure')
+                self.unhandled.append((f.type.__name__, str(f.value)) if f is not None else ('', ''))
+                return
             f = ev.get('failure')
             why = ev.get('why')
             if f is not None:
@@ -166,8 +185,6 @@ class LogTrap(object):
             pass
 
     def flush(self):
-        """collect garbage first so 'Unhandled error in Deferred' is deterministic"""
-        gc.collect()
         return list(self.errors)
 
 
